@@ -112,13 +112,13 @@ def run(ctx):
         if ctx.rng.random() < 0.3:
             kinds += ["FASTA", "H", "J", "D1"]
         cut = min([i for i, k in enumerate(kinds) if k in ("FASTA", "H")] + [len(kinds)])
-        dirs = [enc({"D1": "d1", "D2": "gff-v 3", "D3": "#note", "D0": ""}[k]) for k in kinds[:cut] if k in ("D1", "D2", "D3", "D0")]
+        dirs = [enc({"D1": "d1", "D2": "gff-version 3", "D3": "#note", "D0": ""}[k]) for k in kinds[:cut] if k in ("D1", "D2", "D3", "D0")]
         feats = [i + 1 for i, k in enumerate(kinds[:cut]) if k == "F"]
         extra.append({"kinds": kinds, "cl": ctx.rng.choice([0, 1, 10, 11, 50]), "dirs": dirs, "feats": feats, "peekdirs": []})
     # scale: thousands of directives (and of features) in one file
     for n in ([900, 2100] if thorough else [700]):
         kinds = ["D1", "F", "D2", "D3", "C"] * n
-        extra.append({"kinds": kinds, "cl": 10, "dirs": [enc({"D1": "d1", "D2": "gff-v 3", "D3": "#note", "D0": ""}[k]) for k in kinds if k in ("D1", "D2", "D3", "D0")],
+        extra.append({"kinds": kinds, "cl": 10, "dirs": [enc({"D1": "d1", "D2": "gff-version 3", "D3": "#note", "D0": ""}[k]) for k in kinds if k in ("D1", "D2", "D3", "D0")],
                       "feats": [i + 1 for i, k in enumerate(kinds) if k == "F"], "peekdirs": []})
     res = core.pmap(run_case, [(c, ctx.scratch, 100000 + k) for k, c in enumerate(extra)])
     for c, fails in zip(extra, res):
@@ -136,6 +136,6 @@ def replay(ctx, rec):
         raise core.CannotReplay("no executable case in this replay file")
     kinds = c["kinds"]
     cut = min([i for i, k in enumerate(kinds) if k in ("FASTA", "H")] + [len(kinds)])
-    case = {"kinds": kinds, "cl": c["cl"], "dirs": [enc({"D1": "d1", "D2": "gff-v 3", "D3": "#note", "D0": ""}[k]) for k in kinds[:cut] if k in ("D1", "D2", "D3", "D0")],
+    case = {"kinds": kinds, "cl": c["cl"], "dirs": [enc({"D1": "d1", "D2": "gff-version 3", "D3": "#note", "D0": ""}[k]) for k in kinds[:cut] if k in ("D1", "D2", "D3", "D0")],
             "feats": [i + 1 for i, k in enumerate(kinds[:cut]) if k == "F"]}
     return bool(run_case((case, ctx.scratch, 0)))
